@@ -464,8 +464,8 @@ def fmt_walk(hs, stop):
 
 
 def raw_class(img, ctl):
-    """clean: the property as stated must hold (stop cleanly, exactly the well-formed prefix, nothing outside the buffer);
-    hostile-rights / hostile-overflow: the two input classes on which the code as it is does not (known findings)"""
+    """a label for the streams and histograms only — the oracle is the same for all three: clean; hostile-rights /
+    hostile-overflow = the two input classes on which the code before commit 8263fff crashed or read out of bounds"""
     hs, stop = py_walk(img, ctl)
     if stop[0] == "done":
         return "clean"
@@ -507,11 +507,6 @@ def gen_raw(ctx, thorough):
         if len(img) == 0:
             img = bytes(8)
         ctl = max(0, min(ctl, len(img)))
-        # the one address-dependent outcome (cmsg + cmsg_len overflowing or not) is kept out of the comparison: the
-        # lengths offered to an SCM_RIGHTS header are < 2^64 - 2^48 (never overflows) or >= 2^64 - 2^16 (always does)
-        hs, stop = py_walk(img, ctl)
-        if stop[0] == "malformed" and stop[3] == 1 and stop[4] == 1 and M64 - (1 << 48) <= stop[2] < M64 - (1 << 16):
-            return
         out["cmsgraw %d %s" % (ctl, C.hexs(img))] = (img, ctl)
 
     def rand_msg():
@@ -528,7 +523,7 @@ def gen_raw(ctx, thorough):
 
     lens_small = [0, 1, 8, 15, 16, 17, 19, 20, 23, 24, 31, 32, 33, 4096, 65536]
     lens_huge = [2**31, 2**32, 2**32 + 16, 2**63 - 1, 2**63 + 15, 2**63 + 19, 2**63 + 20, 2**63 + 32, M64 - (1 << 48) - 1,
-                 M64 - 65536, M64 - 4096, M64 - 25, M64 - 24, M64 - 23, M64 - 17, M64 - 16, M64 - 9, M64 - 8, M64 - 7, M64 - 1]
+                 M64 - (1 << 47), M64 - (1 << 40), M64 - 65536, M64 - 4096, M64 - 25, M64 - 24, M64 - 23, M64 - 17, M64 - 16, M64 - 9, M64 - 8, M64 - 7, M64 - 1]
     levels = [0, 1, 2, 41, 257, 2**32 - 1, 2**31]
     n_lists = 40 if not thorough else 400
     for _ in range(n_lists):
@@ -610,9 +605,9 @@ def judge_raw(images):
         cls = raw_class(img, ctl)
         where = "" if stop[0] == "done" else " (first header that is not CMSG_OK: offset %d, cmsg_len %d, level %d, type %d)" % stop[1:]
         if cls == "hostile-rights":
-            return "malformed SCM_RIGHTS header: the iterator does not stop at it%s: %s, the well-formed prefix holds [%s]" % (where, outp[:60], exp[:60])
+            return "iter_full (malformed SCM_RIGHTS header): the iterator does not stop at it%s: %s, the well-formed prefix holds [%s]" % (where, outp[:60], exp[:60])
         if cls == "hostile-overflow":
-            return "foreign header with cmsg_len within 23 of 2^64: alignment arithmetic overflows%s: %s" % (where, outp[:40])
+            return "iter_full (cmsg_len within 23 of 2^64): the iterator does not stop cleanly%s: %s" % (where, outp[:40])
         if outp.startswith("signal") or outp == "panic":
             return "iter_in_bounds / no crash: the iterator crashed (%s) on a control buffer%s" % (outp, where)
         if outp.startswith("oob"):
@@ -749,8 +744,7 @@ def run(ctx):
         "the syscall result decoding (negative errno) is property C09; close() calls are property C12 and are not compared here",
         "socket model of stream_exact: a stream socket is a FIFO byte queue; a successful write appends a non-empty prefix of the offered bytes, a successful read removes a non-empty prefix of the queued bytes; everything else (readiness, EAGAIN, errors, capacity, scheduling) is adversarial — the kernel's conformance is OBSERVED on real Unix and TCP loopback sockets by this run, not proved",
         "Model/Cmsg.lean `kfill` describes net/core/scm.c scm_detach_fds (checked against the running kernel by the kfill cases); x86_64 layout: cmsghdr 16 bytes, usize 8, Fd 4, little endian",
-        "the iterator theorems (iter_terminates, iter_wellformed, iter_stops_at_malformed_foreign, iter_malformed_rights_*) hold for EVERY content of the control buffer under: msg_control 8-byte aligned, buffer mapped, msg_controllen < 2^63, no wrap of the address space, debug build (overflow checks, slice::from_raw_parts precondition check); the model is compared with the real iterator on every cmsgraw case (clean and hostile)",
-        "the one address-dependent outcome of the iterator (`cmsg + cmsg_len` overflowing or not for an SCM_RIGHTS header) is excluded from the generated cases: offered lengths are < 2^64 - 2^48 or >= 2^64 - 2^16, the driver assumes msg_control = 2^46",
+        "iter_full (and iter_terminates, iter_wellformed) hold for EVERY content of the control buffer under: msg_control 8-byte aligned, buffer mapped, msg_controllen < 2^63, no wrap of the address space; the model (code since commit 8263fff, debug-build checks included) is compared with the real iterator on every cmsgraw / cmsghostile case; the model of the code before the repair (`fixed := false`, orig_* theorems) is no longer tied to anything in /repo",
         "stack depth of the iterator's recursive skip over non-SCM_RIGHTS headers is not modelled (observed: ~32 600 consecutive foreign headers, a 510 KiB control buffer, overflow the 8 MiB stack in the debug build); generated buffers are <= 4 KiB",
         "timing: `limit <= elapsed <= limit + 3 s` by CLOCK_MONOTONIC is checked, never exact times; Unix streams have no public time-limited read: their O_NONBLOCK flag and an immediate EAGAIN from read(2) are checked instead",
     ]
@@ -833,15 +827,12 @@ def run(ctx):
     rclean, rhostile, images = gen_raw(ctx, thorough)
     jr = judge_raw(images)
     C.correspond(ctx, "cmsgraw", rclean, [exe], drv, jr, sig_raw, timeout=1800)
-    # the two input classes on which the code as it is does NOT satisfy the statement (known findings): model and
-    # implementation must still agree line by line (judge=None: any disagreement is reported), the oracle is applied after
-    C.correspond(ctx, "cmsghostile", rhostile, [exe], drv, None, None, timeout=1800)
+    # the two input classes on which the code BEFORE commit 8263fff did not satisfy the statement (first malformed header
+    # tagged SCM_RIGHTS; cmsg_len within 23 of 2^64): same strict oracle now
+    C.correspond(ctx, "cmsghostile", rhostile, [exe], drv, jr, lambda c, o, why: {"stream": "cmsghostile", "why": why.split(":")[0]},
+                 timeout=1800)
     _, houts, _ = C.run_filter([exe], rhostile, timeout=1800)
     for c, o in zip(rhostile, houts):
-        why = jr(c, o)
-        if why:
-            ctx.violation(sig_raw(c, o, why), {"stream": "cmsghostile", "case": c, "implementation": o, "why": why,
-                                                "how_to_replay": "echo '%s' | %s" % (c, exe)})
         ctx.hist("cmsg_hostile_outcomes", o.split()[0] if not o.startswith("signal") else o)
     # the Lean specification walk (CMSG_OK + both steppings) against this file's oracle, on every image
     allraw = rclean + rhostile
